@@ -182,7 +182,7 @@ func (h *Handler) MinuteTicker(now time.Time) error {
 }
 
 func configChanged(config SubnetConfig, current SubnetConfig) bool {
-	if config.LAN.Addr() != current.LAN.Addr() ||
+	if config.LAN.Masked().Addr() != current.LAN.Masked().Addr() || // newSubnet stores the masked prefix
 		config.LAN.Bits() != current.LAN.Bits() ||
 		config.DefaultGW != current.DefaultGW ||
 		config.DNSServer != current.DNSServer ||
